@@ -292,6 +292,16 @@ func (r *Run) Do(a string) {
 				r.srv.Send(q.inbox, nil, "503")
 			}
 			r.modelReply(idx, "ERR "+mq.ErrNoResponders.Error())
+		case strings.HasPrefix(msg, "wait:"):
+			ms := 0
+			fmt.Sscan(msg[5:], &ms)
+			if !r.dry {
+				time.Sleep(time.Duration(ms) * time.Millisecond)
+			}
+			// a short extension elapses during the wait
+			if q.state == "extended" && q.shortExt && ms > q.extMillis {
+				q.state, q.expect = "done", "ERR "+mq.ErrRequestTimeout.Error()
+			}
 		case strings.HasPrefix(msg, "pre:"):
 			ms := 0
 			fmt.Sscan(msg[4:], &ms)
@@ -305,8 +315,9 @@ func (r *Run) Do(a string) {
 				q.extArmed, q.extMillis = time.Now(), ms
 				q.shortExt = ms < 1000
 			case "extended":
+				// the new pre-response replaces the previous extended timer
 				q.extArmed, q.extMillis = time.Now(), ms
-				q.shortExt = q.shortExt || ms < 1000
+				q.shortExt = ms < 1000
 			}
 		}
 		if r.dry {
